@@ -48,5 +48,8 @@ GuardRefines(W) == \A c \in Ctors, nc \in 0..(2 ^ W - 1), nr \in 0..(2 ^ W - 1),
                       GuardAccepts(c, nc, nr, n, W) <=> TrueAccepts(c, nc, nr, n, W)
 
 (* ---- equality: two arrays are equal exactly when dimensions and cells are ---- *)
+\* `refl` = the element type's own == is reflexive; for a type whose == never holds (NaN-like) two arrays are equal only
+\* if they have no cells at all - even when both operands are the very same object
 EqExpected(a, b) == a.nc = b.nc /\ a.nr = b.nr /\ a.v = b.v
+EqExpectedR(a, b, refl) == a.nc = b.nc /\ a.nr = b.nr /\ (IF refl THEN a.v = b.v ELSE Len(a.v) = 0 /\ Len(b.v) = 0)
 =============================================================================
